@@ -292,8 +292,9 @@ func (r *reflector) InitializerFromTagged(typeName string, parent px.Type, tg px
 		if nf > 0 {
 			es := make([]*HashEntry, 0, nf)
 			for i, f := range fs {
-				if i == 0 && f.Anonymous {
-					// Parent
+				if i == 0 && f.Anonymous && parent != nil {
+					// Parent (without a declared parent type the embedded struct is a field like any other, as it is for
+					// ToReflectedValue and appendAttributeValues)
 					pt = reflect.PtrTo(f.Type)
 					continue
 				}
